@@ -1565,9 +1565,17 @@ static ASTNode *parse_primary(Stage1Parser *p) {
             /* Check for Module.Type pattern */
             bool is_qualified = next && next->token_type == TOKEN_DOT && 
                                after_next && after_next->token_type == TOKEN_IDENTIFIER;
+            bool qualified_not_literal = false;
             if (is_qualified) {
-                after_brace = peek_token(p, 3);  /* { comes after Module.Type */
+                after_brace = peek_token(p, 4);  /* Module . Type { <after_brace> */
                 looks_like_struct = after_next->value && after_next->value[0] >= 'A' && after_next->value[0] <= 'Z';
+                /* `if c == Color.Red { ... }`: TypeName.Variant followed by the brace of a block is not a
+                 * struct literal.  A literal's brace is followed by `}` or by `field :`. */
+                Token *after_field = peek_token(p, 5);
+                bool literal_body = after_brace && (after_brace->token_type == TOKEN_RBRACE ||
+                                    (after_brace->token_type == TOKEN_IDENTIFIER && after_field &&
+                                     after_field->token_type == TOKEN_COLON));
+                qualified_not_literal = !literal_body;
             }
             
             /* Heuristic: if the token after { is a keyword like 'if', 'return', 'let', etc., 
@@ -1583,7 +1591,7 @@ static ASTNode *parse_primary(Stage1Parser *p) {
             bool has_lbrace = (next && next->token_type == TOKEN_LBRACE) || 
                              (is_qualified && peek_token(p, 3) && peek_token(p, 3)->token_type == TOKEN_LBRACE);
             
-            if (has_lbrace && looks_like_struct && !looks_like_code_block) {
+            if (has_lbrace && looks_like_struct && !looks_like_code_block && !qualified_not_literal) {
                 /* Parse struct literal */
                 int line = tok->line;
                 int column = tok->column;
